@@ -73,9 +73,13 @@ def _classify(ctx, ev):
         if attr == "load_cert_chain":
             return "TLSKEYS"
         if attr == "set" and len(ev.node.args) == 3:
-            a = ev.node.args
-            if all(isinstance(x, ast.Constant) for x in a) and a[0].value == "pygopherd" and a[1].value == "root":
-                return "ROOTSET" if a[2].value == "/" else "ROOTSET_OTHER"
+            from ..paths import NOCONST, const_value
+
+            fr = getattr(ev, "frame", None) or (None, None)
+            vals = [x.value if isinstance(x, ast.Constant) else (const_value(ctx.prog, x, fr[0], fr[1]) if fr[0] is not None else NOCONST)
+                    for x in ev.node.args]
+            if all(v is not NOCONST for v in vals) and vals[0] == "pygopherd" and vals[1] == "root":
+                return "ROOTSET" if vals[2] == "/" else "ROOTSET_OTHER"
     if _is_server_ctor(ctx, ev):
         return "BIND"
     return None
@@ -314,7 +318,7 @@ def check(ctx, rep):
     w = Walker(prog, ctx.resolver, inline=lambda f, t, d: f.module.name.startswith("pygopherd.") and f.name != "log"
                and f not in dropper_set
                and f.module.name not in ("pygopherd.logger", "pygopherd.fileext", "pygopherd.sighandlers"),
-               expr_value=_expr_value, max_depth=4, max_paths=2000000)
+               expr_value=_expr_value, max_depth=4, max_paths=2000000, exact_loops=True, unroll=8)
     paths = w.run(initialize)
     rep.extra.setdefault("paths_enumerated", {})[initialize.qualname] = len(paths)
     prob_order, prob_call = set(), set()
